@@ -23,8 +23,10 @@ use tx3_tir::model::v1beta0 as tir;
 pub struct C08;
 
 /// (txid byte, index): txid order and index order disagree
-// (the same txid with indices 2 and 10: numeric and textual order disagree as well)
-const POOL: [(u8, u32); 5] = [(1, 2), (1, 10), (2, 1), (3, 0), (2, 5)];
+// (the same txid with indices 3 and 24: numeric and textual order disagree as well; indices 24 and 256 sit on lower
+// txids than indices 1 and 0, and their CBOR encodings are wider: length-first "canonical" order disagrees with
+// the ledger's (txid, index) order too)
+const POOL: [(u8, u32); 5] = [(1, 3), (1, 24), (2, 1), (3, 0), (2, 256)];
 
 fn policy(i: usize) -> Vec<u8> {
     vec![[0x10u8, 0x20, 0x30][i]; 28]
